@@ -199,6 +199,8 @@ def write_evidence(prop, pinfo, results, tier, seed, wall, failures, new_fail, l
                        'owned_by_this_property': owns, 'rewritten_lines': it.get('rewritten_lines', 0)}
                 if it['mode'] == 'proved':
                     row.update({'verified': it.get('verified'), 'smt_ms': round(it.get('smt_us', 0) / 1000.0, 1), 'rlimit': it.get('rlimit')})
+                    if it.get('parts'):
+                        row['verified_by_cases'] = '%d verifier processes, one per group of match arms (every arm real in exactly one)' % it['parts']
                     if owns:
                         n_queries += 1
                         if it.get('verified'):
